@@ -315,6 +315,9 @@ def gen_pkg(rng, with_rest=False, want_local=None, want_collision=False):
             for _ in range(rng.randint(1, 2)):
                 lk = rng.choice(["struct", "struct", "int", "iface"])
                 n = fresh(rng.choice(["e", "u"]))
+                tops = [t.name for _, t in p.all_specs(local=False)]
+                if tops and rng.random() < 0.3:
+                    n = rng.choice(tops)          # a local type shadowing a package-level one (legal Go)
                 loc.append(mk_struct(rng, n, "local_struct") if lk == "struct" else
                            mk_int(rng, n) if lk == "int" else mk_iface(rng, n))
                 if lk == "int":
@@ -348,7 +351,7 @@ def gen_pkg(rng, with_rest=False, want_local=None, want_collision=False):
             p.dest.append(TS(t.name, "struct", "%s struct {\n\tID int\n}" % t.name, rhs="struct"))
     if want_local:
         for _, t in p.all_specs(top=False):
-            if t.rhs == "struct" and rng.random() < 0.7:
+            if t.rhs == "struct" and rng.random() < 0.7 and t.name not in [d.name for d in p.dest]:
                 p.dest.append(TS(t.name, "struct", t.go, rhs="struct"))
     return p
 
